@@ -460,6 +460,9 @@ def run(chk, tier):
         chk.analysis_broken("D2: only %d cmath overloads recognised (floor 40)" % n2)
     fb_rule(chk, db)
     fbg_rule(chk, db)
+    from ..rules import iters as _ITR
+    if _ITR.rawdiff_rule(chk, db) < 1:      # RAWDIFF: a signed overflow is not a constant expression although the run-time call wraps
+        chk.unknown_instance('RAWDIFF', 'etl::midpoint', 'the integral overload of midpoint was not recognised')
     from ..rules import shift as _SH
     _SH.check(chk, db, ["_bit/", "_bitset/"], floor=20)      # SHIFT: shift counts stay below the promoted operand width
     chk.assumptions += [
